@@ -328,12 +328,15 @@ class X:
         st.heap[hid] = obj
         return V("ref", hid)
 
-    def log_call(self, st, name, pos, result=None):
+    def log_call(self, st, name, pos, result=None, kw=None):
         if getattr(self.c, "track_log", False):
             names = getattr(self.c, "log_names", None)
             if names and name not in names:
                 return
-            st.log = st.log + (("call", name, tuple(pos), result),)
+            pos = list(pos)
+            if pos and pos[0].k == "ctx":
+                pos = pos[1:]          # method call on the context: log the caller-visible arguments
+            st.log = st.log + (("call", name, tuple(pos), result, tuple(sorted((kw or {}).items(), key=lambda kv: kv[0]))),)
 
     def on_ghost_pop(self, st, field, before, after, node):
         """pop of a tracked sequence: never below the entry frame when the
@@ -1684,6 +1687,9 @@ class X:
                     if foreach and cur_title is not None:
                         s2.ghost = dict(s2.ghost)
                         s2.ghost[pkey] = V("zarr", z3.Store(s2.ghost[pkey].t, cur_title, True))
+                    if spec and spec.get("iteration_post"):
+                        # postconditions of one iteration (not invariants: neither checked on entry nor assumed)
+                        self._check_loop_invariant(s_, s2, chain, {"invariant": spec["iteration_post"]}, fp, "iter-post")
                     if spec and spec.get("invariant"):
                         self._check_loop_invariant(s_, s2, chain, spec, fp, "inv-keep")
                     else:
